@@ -5612,7 +5612,8 @@ class Symbol:
             # Reason: By user-setting choice symbol to y, the whole choice is user-set and we need to propagate
             #         this change to the other choice symbols as well.
             for choice_sym in self.choice.syms:
-                if choice_sym.name != self.name:
+                # (promptless symbols always have a default value, they are never user-set)
+                if choice_sym.name != self.name and any(node.prompt for node in choice_sym.nodes):
                     choice_sym._sdkconfig_value = "n"
                     choice_sym._loaded_as_default = False
         else:
